@@ -117,6 +117,12 @@ fn reader_model(v: &ReaderCase, rep: &mut Rep) -> Result<(), String> {
         Ok(())
     };
     for (oi, op) in ops.iter().enumerate() {
+        {
+            // what is buffered right now is a piece of the source at the model position
+            let b = r.buffer();
+            check_slice(b, pos, "buffer()")?;
+            ensure!(b.len() <= r.capacity(), "buffer() larger than the capacity");
+        }
         match op {
             Op::Fill => {
                 let s = r.fill_buf().map_err(|e| format!("fill_buf error {}", e))?;
